@@ -396,6 +396,12 @@ func (s *Server) handleConn(ctx context.Context, conn *Conn, module *Module, pc 
 	// If returning an error, send the error to the client for display, too:
 	defer func() {
 		if err != nil {
+			// The sending client may be blocked writing file data that nobody
+			// reads anymore, in which case it never gets to read our error
+			// (and, over an unbuffered transport, this write blocks forever
+			// behind the abandoned generator). Keep consuming its output
+			// until the connection is closed.
+			go io.Copy(io.Discard, rd)
 			mpx.WriteMsg(rsyncwire.MsgError, fmt.Appendf(nil, "gokr-rsync [receiver]: %v\n", err))
 		}
 	}()
